@@ -106,8 +106,8 @@ func main() {
 		// deterministic small-scope families first, random scripts last; violations are printed
 		// (and flushed) the moment they are found, so a time-boxed run loses nothing
 		scripts := loadCorpus(os.Getenv("VERIF_CORPUS"))
-		scripts = append(scripts, leadScripts()...)
 		scripts = append(scripts, impersonationScripts()...)
+		scripts = append(scripts, leadScripts()...)
 		scripts = append(scripts, boundaryScripts()...)
 		scripts = append(scripts, exhaustiveSmall()...)
 		for i := 0; i < n; i++ {
